@@ -434,11 +434,18 @@ where
         let inner = corosensei::Coroutine::with_stack(stack, move |y, p| {
             catch!(
                 move || {
+                    // popped when the body returns and also when it unwinds, otherwise the
+                    // thread keeps a dangling current suspender
+                    struct Current<Param, Yield>(std::marker::PhantomData<(Param, Yield)>);
+                    impl<Param, Yield> Drop for Current<Param, Yield> {
+                        fn drop(&mut self) {
+                            Suspender::<Param, Yield>::clean_current();
+                        }
+                    }
                     let suspender = Suspender::new(y);
                     Suspender::<Param, Yield>::init_current(&suspender);
-                    let r = f(&suspender, p);
-                    Suspender::<Param, Yield>::clean_current();
-                    r
+                    let _current = Current::<Param, Yield>(std::marker::PhantomData);
+                    f(&suspender, p)
                 },
                 format!("coroutine {co_name} failed without message"),
                 co_name
